@@ -54,7 +54,8 @@ def domains(quick):
     e1 = endpoint_lists(1)
     if quick:
         return [
-            ('private', e2, [(0, 0), (1, 0), (0, 2)], PASS_ALL[:3],
+            ('private', e2, [(0, 0), (1, 0), (0, 2), (1, 2, 'udp-first')],
+             PASS_ALL[:3],
              [False, True], [False], [False], ['dev', 'prod'], ['identity']),
             ('port-orders', e2, [(0, 0), (2, 1)], [[]], [True], [False],
              [False], ['dev'], ['reversed', 'rotated']),
@@ -187,11 +188,11 @@ def fault_manifests(quick):
             [('e1', 'tcp', 22, None), ('e2', 'tcp', 8000, 'infra')],
             [('e1', 'udp', 0, None), ('e2', 'udp', 22, 'infra')],
         ]
-        ephs = [(0, 0), (1, 0), (0, 1), (2, 1)]
+        ephs = [(0, 0), (1, 0), (0, 1), (2, 1), (1, 2, 'udp-first')]
         pts = [[], ['h1', 'h3']]
     else:
         eps = e2
-        ephs = [(0, 0), (1, 0), (0, 1), (2, 1)]
+        ephs = [(0, 0), (1, 0), (0, 1), (2, 1), (1, 2, 'udp-first')]
         pts = [[], ['h1'], ['h1', 'h3']]
     out = []
     for ep in eps:
@@ -212,7 +213,7 @@ def start_fault_manifests(quick):
         return fault_manifests(True)
     out = []
     for ep in endpoint_lists(2):
-        for eph in [(0, 0), (2, 1)]:
+        for eph in [(0, 0), (2, 1), (1, 2, 'udp-first')]:
             for pt in [[], ['h1', 'h3']]:
                 for vr in (False, True):
                     out.append(W.manifest(endpoints_=ep, eph=eph,
